@@ -420,12 +420,19 @@ func c08AddRef(c *core.Ctx) {
 				}
 				if unbalanced {
 					// one follow-up call of each kind, each on a fresh instance brought to the same state
-					for _, kind := range []string{"Add(0)", "Send", "Add(+1)", "Add(-1)"} {
+					for fi, kind := range []string{"Add(0)", "Send", "Add(+1)", "Add(-1)", "Add(-1)", "Add(-5)", "Send", "Add(0)"} {
 						y := bigbuff.NewChanCaster(make(chan int))
 						for _, pd := range seq[:i] {
 							y.Add(pd)
 						}
 						core.Recover(func() { y.Add(d) })
+						if fi >= 4 {
+							// the same misuse once or twice more (each recovered) before the follow-up: however far the
+							// internal counters have been pushed by then, the instance still reports it
+							for rep := 0; rep <= fi%2; rep++ {
+								core.Recover(func() { y.Add(d) })
+							}
+						}
 						var f outcome
 						returned := core.AwaitDone(core.Go(func() {
 							f = call(func() int {
@@ -436,6 +443,8 @@ func c08AddRef(c *core.Ctx) {
 									return y.Send(1)
 								case "Add(+1)":
 									return y.Add(1)
+								case "Add(-5)":
+									return y.Add(-5)
 								default:
 									return y.Add(-1)
 								}
